@@ -161,19 +161,20 @@ func BuildTree(W string, nodes []TNode) error {
 }
 
 type PackArg struct {
-	Nodes     []TNode `json:"nodes"`
-	Src       string  `json:"src,omitempty"` // spelling of the source argument; "" = "<W>/src"
-	Cwd       string  `json:"cwd,omitempty"` // chdir (W-relative or "<W>...") before Pack
-	Ignore    bool    `json:"ignore,omitempty"`
-	Deref     bool    `json:"deref,omitempty"`
-	AllowOut  bool    `json:"allow_out,omitempty"` // AllowSymlinkTarget(<W>/out)
-	Legacy    bool    `json:"legacy,omitempty"`    // use package-level slug.Pack(src, w, deref)
-	Roundtrip bool    `json:"roundtrip,omitempty"`
-	Reuse     bool    `json:"reuse,omitempty"` // the same *Packer first packs the fixed tree <W>/pre
-	PreSrc    string  `json:"pre_src,omitempty"`   // with Reuse: pack this directory first instead (its nodes are part of Nodes)
-	PreFails  bool    `json:"pre_fails,omitempty"` // with Reuse: the earlier Pack fails half-way (dangling out-of-tree link sorted last)
-	AllowRel  string  `json:"allow_rel,omitempty"` // AllowSymlinkTarget with a RELATIVE entry (relative to the root of each operation)
-	UID       int     `json:"uid,omitempty"`
+	Nodes      []TNode `json:"nodes"`
+	Src        string  `json:"src,omitempty"` // spelling of the source argument; "" = "<W>/src"
+	Cwd        string  `json:"cwd,omitempty"` // chdir (W-relative or "<W>...") before Pack
+	Ignore     bool    `json:"ignore,omitempty"`
+	Deref      bool    `json:"deref,omitempty"`
+	AllowOut   bool    `json:"allow_out,omitempty"`   // AllowSymlinkTarget(<W>/out)
+	AllowEmpty bool    `json:"allow_empty,omitempty"` // AllowSymlinkTarget(""): must allow nothing new
+	Legacy     bool    `json:"legacy,omitempty"`      // use package-level slug.Pack(src, w, deref)
+	Roundtrip  bool    `json:"roundtrip,omitempty"`
+	Reuse      bool    `json:"reuse,omitempty"`     // the same *Packer first packs the fixed tree <W>/pre
+	PreSrc     string  `json:"pre_src,omitempty"`   // with Reuse: pack this directory first instead (its nodes are part of Nodes)
+	PreFails   bool    `json:"pre_fails,omitempty"` // with Reuse: the earlier Pack fails half-way (dangling out-of-tree link sorted last)
+	AllowRel   string  `json:"allow_rel,omitempty"` // AllowSymlinkTarget with a RELATIVE entry (relative to the root of each operation)
+	UID        int     `json:"uid,omitempty"`
 	// writer faults (C12)
 	FailAt    int  `json:"fail_at,omitempty"` // 0 = none; N>0: the writer fails once N-1 bytes were accepted
 	ShortFail bool `json:"short_fail,omitempty"`
@@ -201,7 +202,7 @@ type PackOut struct {
 	UnpackIll   bool                `json:"unpack_illegal,omitempty"`
 	DstTree     map[string]fsx.Node `json:"dst_tree,omitempty"`
 	SourceDiff  []string            `json:"source_diff,omitempty"`
-	Resolved    map[string]string   `json:"resolved,omitempty"` // archive name -> W-relative physical path of src/<name>
+	Resolved    map[string]string   `json:"resolved,omitempty"`    // archive name -> W-relative physical path of src/<name>
 	ParentPhys  map[string]string   `json:"parent_phys,omitempty"` // archive name -> W-relative physical path of the directory holding src/<name>
 	AbsRel      map[string]string   `json:"abs_rel,omitempty"`     // archive name -> W-relative form of an absolute link target
 	WriterErred bool                `json:"writer_erred,omitempty"`
@@ -210,8 +211,8 @@ type PackOut struct {
 }
 
 type faultWriter struct {
-	calls   int
-	onCall  func(n int)
+	calls  int
+	onCall func(n int)
 	buf    bytes.Buffer
 	failAt int
 	short  bool
@@ -283,6 +284,9 @@ func runPack(arg PackArg) (out PackOut) {
 	}
 	if arg.AllowOut {
 		opts = append(opts, slug.AllowSymlinkTarget(filepath.Join(W, "out")))
+	}
+	if arg.AllowEmpty {
+		opts = append(opts, slug.AllowSymlinkTarget(""))
 	}
 	if arg.AllowRel != "" {
 		opts = append(opts, slug.AllowSymlinkTarget(arg.AllowRel))
